@@ -87,6 +87,8 @@ type cvxReq struct {
 	NRStatus int               `json:"nrstatus"`
 	NRPage   string            `json:"nrpage"`
 	Resp     string            `json:"resp"`
+	Peer     string            `json:"peer"`     // "v4" (default) | "v6": the client connects over 127.0.0.1 / ::1
+	CfgSpell string            `json:"cfgspell"` // "canon" (default) | "odd": spelling of the configured header names
 }
 
 type cvxUp struct {
@@ -134,10 +136,13 @@ type cvxCase struct {
 // ---------------------------------------------------------------- concretisation of tokens
 
 const (
-	cvxPeer       = "127.0.0.1"
-	cvxIDHeader   = "X-Verif-Case"
-	cvxClientIPHd = "X-Client-Ip"
-	cvxTLSHd      = "X-Tls"
+	cvxPeer          = "127.0.0.1"
+	cvxPeer6         = "::1"
+	cvxIDHeader      = "X-Verif-Case"
+	cvxClientIPHd    = "X-Client-Ip" // canonical MIME spelling; configured as such or ...
+	cvxTLSHd         = "X-Tls"
+	cvxClientIPHdOdd = "X-Client-IP" // ... the way people write it
+	cvxTLSHdOdd      = "X-TLS"
 	cvxTLSVal     = "true"
 	cvxSTSMaxAge  = 31536000
 	cvxSTSValue   = "max-age=31536000; includeSubdomains"
@@ -154,6 +159,17 @@ var cvxManagedName = map[string]string{
 var cvxManagedOrder = []string{"clientip", "xff", "xrealip", "tlshdr", "xfproto", "forwarded", "xfport", "xfhost"}
 
 func cvxJoin(toks []string) string { return strings.Join(toks, "") }
+
+// cvxOpt renders the text of a route option (strip=, prepend=, source path): plain text, the
+// token U+F6 stands for the letter o-umlaut.
+func cvxOpt(toks []string) string { return strings.ReplaceAll(strings.Join(toks, ""), "U+F6", "\u00f6") }
+
+func cvxPeerOf(cs *cvxCase) string {
+	if cs.C.Peer == "v6" {
+		return cvxPeer6
+	}
+	return cvxPeer
+}
 
 func cvxQuery(params []string) string { return strings.Join(params, "&") }
 
@@ -178,7 +194,17 @@ func cvxForgedToken(cs *cvxCase, h, tok string) string {
 	}
 	switch tok {
 	case "peer":
-		return cvxPeer
+		return cvxPeerOf(cs)
+	case "sfxpeer": // an address whose text merely ends with the peer's
+		if cs.C.Peer == "v6" {
+			return "2001:db8:" + cvxPeer6
+		}
+		return "2" + cvxPeer
+	case "peerpfx": // ... or starts with it
+		if cs.C.Peer == "v6" {
+			return cvxPeer6 + "f"
+		}
+		return cvxPeer + "9"
 	case "cfgvalue":
 		return cvxTLSVal
 	case "reqhost":
@@ -238,8 +264,15 @@ func cvxForgedLines(cs *cvxCase, h string) []string {
 		return nil
 	}
 	if h == "xff" {
-		if style == "twice" {
+		switch style {
+		case "twice":
 			return []string{"1.1.1.1", "2.2.2.2, 3.3.3.3"}
+		case "sfx":
+			return []string{"1.1.1.1, " + cvxForgedToken(cs, h, "sfxpeer")}
+		case "pfx":
+			return []string{"1.1.1.1, " + cvxForgedToken(cs, h, "peerpfx")}
+		case "dup":
+			return []string{"1.1.1.1, " + cvxPeerOf(cs)}
 		}
 		return []string{"1.1.1.1"}
 	}
@@ -270,6 +303,11 @@ func cvxHeaderSet(id string) []cvxHdrLine {
 			{"User-Agent", []string{"verif/1.0 (conformance)"}},
 			{"Referer", []string{"http://elsewhere.example/a%2Fb?x=%20"}},
 		}
+	case "expect":
+		return []cvxHdrLine{
+			{"Expect", []string{"100-continue"}},
+			{"Content-Type", []string{"application/x-verif"}},
+		}
 	case "odd":
 		return []cvxHdrLine{
 			{"x-lower-case", []string{"v"}},
@@ -286,14 +324,40 @@ func cvxHeaderSet(id string) []cvxHdrLine {
 
 // upstream answers
 type cvxPlan struct {
+	Interim []int // informational answers sent before the final one
 	Status  int
 	Hdr     []cvxHdrLine
 	Body    int
 	Chunked bool
 }
 
+// cvxAnswer: "hints-created" = 103 Early Hints, then the answer "created"; "processing-error" = 102, then "error".
 func cvxAnswer(kind string) (status int, hdr []cvxHdrLine) {
+	_, status, hdr = cvxAnswerScript(kind)
+	return
+}
+
+func cvxAnswerScript(kind string) (interim []int, status int, hdr []cvxHdrLine) {
+	for {
+		if rest, ok := strings.CutPrefix(kind, "hints-"); ok {
+			interim, kind = append(interim, http.StatusEarlyHints), rest
+		} else if rest, ok := strings.CutPrefix(kind, "processing-"); ok {
+			interim, kind = append(interim, http.StatusProcessing), rest
+		} else {
+			break
+		}
+	}
+	status, hdr = cvxFinalAnswer(kind)
+	return
+}
+
+func cvxFinalAnswer(kind string) (status int, hdr []cvxHdrLine) {
 	switch kind {
+	case "notfound":
+		return 404, []cvxHdrLine{
+			{"Content-Type", []string{"text/plain"}},
+			{"X-Up-Missing", []string{"nothing here"}},
+		}
 	case "created":
 		return 201, []cvxHdrLine{
 			{"Content-Type", []string{"application/x-verif"}},
@@ -438,10 +502,10 @@ func cvxRouteCmds(key, rhost string, routes []cvxRoute, upAddr string) []string 
 		}
 		var opts []string
 		if len(r.Strip) > 0 {
-			opts = append(opts, "strip="+cvxJoin(r.Strip))
+			opts = append(opts, "strip="+cvxOpt(r.Strip))
 		}
 		if len(r.Prepend) > 0 {
-			opts = append(opts, "prepend="+cvxJoin(r.Prepend))
+			opts = append(opts, "prepend="+cvxOpt(r.Prepend))
 		}
 		switch r.HostOpt {
 		case "":
@@ -458,7 +522,7 @@ func cvxRouteCmds(key, rhost string, routes []cvxRoute, upAddr string) []string 
 		if rhost == "ported" {
 			svc += "p"
 		}
-		cmd := "route add " + svc + " " + host + cvxJoin(r.Src) + " " + dst
+		cmd := "route add " + svc + " " + host + cvxOpt(r.Src) + " " + dst
 		if len(opts) > 0 {
 			cmd += ` opts "` + strings.Join(opts, " ") + `"`
 		}
@@ -484,6 +548,8 @@ type cvxCfgKey struct {
 	ip, tlshdr, sts bool
 	nr              int
 	tls             bool
+	odd             bool // header names configured in non-canonical spelling
+	v6              bool // the front listens on ::1
 }
 
 type cvxFront struct {
@@ -510,6 +576,7 @@ type cvxWorld struct {
 	nroutes  int
 	errs     int64
 	retries  int64
+	noV6     bool // ::1 cannot be listened on: IPv6 cases are skipped (and counted)
 }
 
 func cvxNewWorld() *cvxWorld {
@@ -530,9 +597,12 @@ func cvxNewWorld() *cvxWorld {
 	w.client = &http.Client{
 		Transport: &http.Transport{
 			TLSClientConfig:     &tls.Config{InsecureSkipVerify: true},
-			DisableCompression:  true,
-			MaxIdleConns:        1024,
-			MaxIdleConnsPerHost: 32,
+			DisableCompression: true,
+			// how long a request with Expect: 100-continue waits for the interim answer before it
+			// sends its body anyway; nothing is decided by this
+			ExpectContinueTimeout: 2 * time.Second,
+			MaxIdleConns:          1024,
+			MaxIdleConnsPerHost:   32,
 		},
 		CheckRedirect: func(*http.Request, []*http.Request) error { return http.ErrUseLastResponse },
 		Timeout:       120 * time.Second, // safety net only: expiry is an error record, never a verdict
@@ -603,8 +673,13 @@ func (w *cvxWorld) serveUpstream(rw http.ResponseWriter, r *http.Request) {
 	if p, ok := w.plans.Load(cvxCaseOf(id)); ok {
 		plan = p.(*cvxPlan)
 	} else {
-		st, hd := cvxAnswer("ok")
+		st, hd := cvxFinalAnswer("ok")
 		plan = &cvxPlan{Status: st, Hdr: hd, Body: 1}
+	}
+	for _, code := range plan.Interim {
+		rw.Header().Set("Link", "</style.css>; rel=preload; as=style")
+		rw.WriteHeader(code)
+		rw.Header().Del("Link")
 	}
 	for _, l := range plan.Hdr {
 		for _, v := range l.Vals {
@@ -668,9 +743,15 @@ func (w *cvxWorld) front(k cvxCfgKey) *cvxFront {
 	cfg := config.Proxy{NoRouteStatus: k.nr}
 	if k.ip {
 		cfg.ClientIPHeader = cvxClientIPHd
+		if k.odd {
+			cfg.ClientIPHeader = cvxClientIPHdOdd
+		}
 	}
 	if k.tlshdr {
 		cfg.TLSHeader = cvxTLSHd
+		if k.odd {
+			cfg.TLSHeader = cvxTLSHdOdd
+		}
 		cfg.TLSHeaderValue = cvxTLSVal
 	}
 	if k.sts {
@@ -689,6 +770,16 @@ func (w *cvxWorld) front(k cvxCfgKey) *cvxFront {
 		},
 	}
 	srv := httptest.NewUnstartedServer(p)
+	if k.v6 {
+		l, err := net.Listen("tcp6", "[::1]:0")
+		if err != nil {
+			w.noV6 = true
+			srv.Listener.Close()
+			return nil
+		}
+		srv.Listener.Close()
+		srv.Listener = l
+	}
 	if os.Getenv("VERIF_LOG") == "" {
 		srv.Config.ErrorLog = log.New(io.Discard, "", 0)
 	}
@@ -716,7 +807,8 @@ func (w *cvxWorld) front(k cvxCfgKey) *cvxFront {
 }
 
 func cvxFrontKey(cs *cvxCase) cvxCfgKey {
-	return cvxCfgKey{ip: cs.C.CfgIP, tlshdr: cs.C.CfgTLS, sts: cs.C.CfgSTS, nr: cs.C.NRStatus, tls: cs.C.TLS}
+	return cvxCfgKey{ip: cs.C.CfgIP, tlshdr: cs.C.CfgTLS, sts: cs.C.CfgSTS, nr: cs.C.NRStatus, tls: cs.C.TLS,
+		odd: cs.C.CfgSpell == "odd", v6: cs.C.Peer == "v6"}
 }
 
 // ---------------------------------------------------------------- the client side
